@@ -382,6 +382,36 @@ def spanmon_shard(args):
     return agg
 
 
+def eof_matrix():
+    """Sources that end inside a lexical construct whose last 1-4 bytes are invalid or truncated UTF-8 (or an odd character):
+    every error-producing prefix x every tail x every closer.  The error must be located inside the source and rendered."""
+    prefixes = [b'"\\', b"'\\", b'"\\u12', b'"\\u', b'@"', b"@'", b'"', b"'", b"|||\n  ", b"|||\n  a\n ", b"/*", b"/* *", b"//", b"#", b"1e", b"1.", b"1_",
+                b"$", b"x.", b"[1, ", b"{a: ", b"local x = ", b"import '", b"importstr @'", b'"ab\\x', b'"\\ud83d\\', b'"\\ud83d\\u', b"1 +", b"a@", b"`"]
+    tails = [b"\xff", b"\xc3", b"\xe2\x82", b"\xf0\x9f\x98", b"\xed\xa0\x80", b"\xc0\x80", b"\xf4\x90\x80\x80", b"\x80", b"\xcc\xb9", b"\xe2\x80\x8b", b"\x00",
+             b"\xf0\x9f\x98\x80", b"\xc3\xa9", b""]
+    closers = [b"", b'"', b"'", b"\n", b"\r\n", b"*/", b"|||"]
+    out = []
+    for p_ in prefixes:
+        for t_ in tails:
+            for c_ in closers:
+                out.append(p_ + t_ + c_)
+    return out
+
+
+def raw_sources_shard(args):
+    seed, srcs = args
+    agg = Agg()
+    srv = Server()
+    rng = random.Random(seed)
+    try:
+        for src in srcs:
+            pad = rng.choice([b"", b"", b"\n", b"local z = 1;\n", b"\t "])
+            render_case(agg, srv, pad + src, rng.choice(["<in>", "dir/f.jsonnet"]), "eof_matrix", None)
+    finally:
+        srv.close()
+    return agg
+
+
 def shared_path_shard(args):
     """Several distinct sources that carry the same display path, rendered one after another by one Session (virtual sources
     loaded under one name; a name equal to the standard library's): every diagnostic must quote and locate its own source."""
@@ -518,6 +548,11 @@ def run(tier, seed):
     n = 2500 if quick else 150000
     for a in common.pmap(mutants_shard, [(seed * 811 + i, n // 32) for i in range(32)]):
         total.merge(a)
+    em = eof_matrix()
+    if quick:
+        em = em[seed % 3::3]
+    for a in common.pmap(raw_sources_shard, [(seed + i, em[i::32]) for i in range(32)]):
+        total.merge(a)
     for a in common.pmap(shared_path_shard, [(seed * 823 + i, 40 if quick else 2000) for i in range(16)]):
         total.merge(a)
     depths = [0, 1, 2, 3, 4, 6, 7, 8, 9, 15, 100] if quick else list(range(0, 20)) + [50, 100, 499, 1000, 3000, 10000]
@@ -533,7 +568,8 @@ def run(tier, seed):
     rule = (f"{len(FAILING)} failing templates (one per error family/kind: lexical, syntactic, static, run-time incl. "
             "imports, asserts, type errors, overflows, cycles) x paddings that move the error (first byte, after CRLF / "
             "tab / multi-byte / invalid UTF-8 / 100 000-column lines / 40 blank lines) + " + str(len(MULTILINE)) + " templates whose error span covers "
-            "several lines and straddles the lines 9|10, 99|100, 999|1000 + several distinct sources under one display path rendered by one "
+            "several lines and straddles the lines 9|10, 99|100, 999|1000 + an end-of-input matrix (30 prefixes that leave a lexical construct open x 14 invalid / truncated UTF-8 or zero-width tails x 7 "
+            "closers) + several distinct sources under one display path rendered by one "
             "Session (each diagnostic must quote and locate its own source) + corpus mutants: (1) every "
             "span of the structured error and of each stack-trace item lies inside its source with start <= end; (2) "
             "rendered by Session plain and coloured with max_trace in {none,0,1,2,3,7}: no failure, an 'error:' "
